@@ -24,6 +24,7 @@ import abc
 import sys
 import types
 from itertools import zip_longest
+import inspect
 import itertools
 import keyword
 import collections
@@ -354,9 +355,20 @@ def default_sources(sig, obj):
     return srcs
 
 
+def _annotated_function(obj):
+    """The function whose annotations `inspect.signature` reports for
+    ``obj``: what a `functools.wraps` chain leads to"""
+    try:
+        return inspect.unwrap(
+            obj, stop=lambda f: hasattr(f, '__signature__'))
+    except ValueError:
+        return obj
+
+
 def set_default_sources(sig, obj):
     """Assigns the source of every parameter of sig to obj"""
-    return Signature._upgrade(sig, obj, default_sources(sig, obj))
+    return Signature._upgrade(
+        sig, _annotated_function(obj), default_sources(sig, obj))
 
 
 def signature(obj):
